@@ -593,3 +593,58 @@ func verifK_Flow() {
 	verifAssert(fr.currentWindow == W, "C05+C06.k-flow-whole-receiver-window-available-again")
 	verifAssert(!verifMutexHeld(&ds.mu) && !verifMutexHeld(&fr.mu), "C15.k-flow-locks-released")
 }
+
+// K-REG (C12 C15): enumeration, routing and readiness queries concurrent with
+// tunnels registering and leaving: every answer is a snapshot of some moment
+// (no tunnel twice, nothing that never was a member), routing only goes to
+// tunnels that were registered, and at the end the registry is exactly the set
+// of tunnels still open. With the happens-before detector on (C15) every access
+// to the registry's slice, cursor and latch by the five threads is checked.
+func verifK_Registry() {
+	h := NewTunnelServiceHandler(TunnelServiceHandlerOptions{})
+	t0, t1, t2 := &tunnelChannel{}, &tunnelChannel{}, &tunnelChannel{}
+	known := func(x any) bool {
+		return x == any(t0) || x == any(t1) || x == any(t2)
+	}
+	// two tunnels are up (t0 first: it is not the last slice element when it leaves)
+	for _, t := range []*tunnelChannel{t0, t1} {
+		h.reverse.add(t, "k")
+		h.reverseChannelsForKey("k").add(t, "k")
+	}
+	verifGo("close-t0", func() { h.unregister(t0) })
+	verifGo("open-t2", func() {
+		h.reverse.add(t2, "k")
+		h.reverseChannelsForKey("k").add(t2, "k")
+	})
+	verifGo("enumerate", func() {
+		all := h.AllReverseTunnels()
+		verifAssert(len(all) >= 1 && len(all) <= 3, "C12.k-enumeration-size-is-a-possible-one")
+		for i := range all {
+			verifAssert(known(all[i]), "C12.k-enumeration-lists-only-tunnels")
+			for j := 0; j < i; j++ {
+				verifAssert(all[i] != all[j], "C12+C15.k-enumeration-lists-no-tunnel-twice")
+			}
+		}
+		has1 := false
+		for i := range all {
+			if all[i] == TunnelChannel(t1) {
+				has1 = true
+			}
+		}
+		verifAssert(has1, "C12.k-enumeration-contains-the-tunnel-that-stays")
+	})
+	verifGo("route", func() {
+		for i := 0; i < 2; i++ {
+			p := h.pickKey("k")
+			verifAssert(p != nil && known(p), "C12.k-routing-finds-an-open-tunnel")
+			verifAssert(h.reverse.ready() && h.keyIsReady("k"), "C12.k-ready-while-a-tunnel-is-up")
+		}
+	})
+	verifDrain()
+	all := h.AllReverseTunnels()
+	verifAssert(len(all) == 2 && ((all[0] == TunnelChannel(t1) && all[1] == TunnelChannel(t2)) || (all[0] == TunnelChannel(t2) && all[1] == TunnelChannel(t1))), "C12+C14.k-registry-is-exactly-the-open-tunnels")
+	p1, p2 := h.pickKey("k"), h.pickKey("k")
+	verifAssert(p1 != nil && p2 != nil && p1 != p2 && p1 != grpc.ClientConnInterface(t0) && p2 != grpc.ClientConnInterface(t0), "C12.k-closed-tunnel-not-routed-to")
+	verifAssert(!verifMutexHeld(&h.mu) && !verifMutexHeld(&h.reverse.mu), "C15.k-registry-locks-released")
+	verifCover("k-reg-done")
+}
